@@ -45,34 +45,38 @@ theorem close_sound (x y : ℚ) : Text.close x y = true ↔ Close x y := by
 def TokenOK (tok : Rat → Str) (x : Rat) : Prop :=
   IsF64 x ∧ inGrammar (tok x) = true ∧ ∃ y, parseDec (tok x) = some y ∧ Text.close x y = true
 
-/-- the executable rounding is a round-to-nearest that does not overflow near binary64 values -/
-def RneNearest : Prop :=
-  ∀ y : ℚ, (∀ r, F64.rne y = some r → IsNearestF64 y r) ∧
-    ((∃ x, IsF64 x ∧ Close x y) → (F64.rne y).isSome = true)
+/-- The executable rounding `F64.rne` of the model (used by every reader of the model and by
+`linspace` in C11) really returns a binary64 value nearest to its argument. -/
+theorem rne_nearest (y r : ℚ) (h : F64.rne y = some r) : IsNearestF64 y r := F64.rne_nearest y r h
 
-theorem goodTok_of_tokenOK (hR : RneNearest) (tok : Rat → Str) (x : Rat) (h : TokenOK tok x) :
-    GoodTok tok x := by
+/-- text → double: every rational within 2⁻⁵⁵ (relative) of a binary64 value `x` is rounded to
+exactly `x` by the model's `rne` — no overflow, subnormals and the largest double included. -/
+theorem rne_roundtrip_of_close (x y : ℚ) (hx : IsF64 x) (hc : Close x y) : F64.rne y = some x := by
+  obtain ⟨r, hr⟩ := Option.isSome_iff_exists.mp (F64.rne_isSome_of_close x y hx hc)
+  rw [hr, nearest_of_close hx hc (F64.rne_nearest y r hr)]
+
+/-- `rne` is the identity on binary64 values -/
+theorem rne_id_on_f64 (x : ℚ) (hx : IsF64 x) : F64.rne x = some x :=
+  rne_roundtrip_of_close x x hx (by unfold Close; simp; positivity)
+
+theorem goodTok_of_tokenOK (tok : Rat → Str) (x : Rat) (h : TokenOK tok x) : GoodTok tok x := by
   obtain ⟨hx, hg, y, hy, hc⟩ := h
-  have hc' := (close_sound x y).mp hc
-  obtain ⟨h1, h2⟩ := hR y
-  obtain ⟨r, hr⟩ := Option.isSome_iff_exists.mp (h2 ⟨x, hx, hc'⟩)
-  have : r = x := nearest_of_close hx hc' (h1 r hr)
-  exact ⟨hg, y, hy, this ▸ hr⟩
+  exact ⟨hg, y, hy, rne_roundtrip_of_close x y hx ((close_sound x y).mp hc)⟩
 
 /-- TUM write → read: same number and order of poses, every stamp / coordinate / quaternion
-component the identical binary64 value — for every trajectory of binary64 values and every token
-function passing the per-token check.  `_partial`: assumes `RneNearest` (that the executable
-`F64.rne` is a round-to-nearest), which is validated against CPython on every run and proved in
-Lemmas/F64Rne.lean as far as stated there. -/
-theorem tum_roundtrip_partial (hR : RneNearest) (tok : Rat → Str) (p0 : StampedPose) (ps : List StampedPose)
+component the identical binary64 value — for every trajectory of binary64 values and every
+number → token function passing the per-token check that each run performs on every token evo
+writes (literal of the grammar, within 2⁻⁵⁵ of its double). -/
+theorem tum_roundtrip (tok : Rat → Str) (p0 : StampedPose) (ps : List StampedPose)
     (h : ∀ p ∈ p0 :: ps, ∀ x ∈ tumRow p, TokenOK tok x) :
     readTum (layoutTum tok (p0 :: ps)) = .ok (p0 :: ps) :=
-  Evo.C07.layout_then_read tok p0 ps fun p hp x hx => goodTok_of_tokenOK hR tok x (h p hp x hx)
+  Evo.C07.layout_then_read tok p0 ps fun p hp x hx => goodTok_of_tokenOK tok x (h p hp x hx)
 
-theorem kitti_roundtrip_partial (hR : RneNearest) (tok : Rat → Str) (p0 : Mat34) (ps : List Mat34)
+/-- KITTI write → read: every matrix entry identical, rows in order. -/
+theorem kitti_roundtrip (tok : Rat → Str) (p0 : Mat34) (ps : List Mat34)
     (h : ∀ p ∈ p0 :: ps, ∀ x ∈ kittiRow p, TokenOK tok x) :
     readKitti (layoutKitti tok (p0 :: ps)) = .ok (p0 :: ps) :=
-  Evo.C07.layout_then_read_kitti tok p0 ps fun p hp x hx => goodTok_of_tokenOK hR tok x (h p hp x hx)
+  Evo.C07.layout_then_read_kitti tok p0 ps fun p hp x hx => goodTok_of_tokenOK tok x (h p hp x hx)
 
 /-- `json.loads(json.dumps(s)) = s` for every string of Unicode scalar values (info strings and
 dictionary keys of result archives): control characters, quotes, backslashes, BMP and astral
@@ -80,10 +84,36 @@ characters (surrogate pairs). -/
 theorem json_string_roundtrip (s : List Char) : Json.unescape (Json.escape s) = some s :=
   Json.unescape_escape s
 
-/-- a JSON / text token that converts back to `x` round-trips, whatever its spelling (`repr`) -/
-theorem json_number_roundtrip (x y r : ℚ) (hx : IsF64 x) (hc : Close x y) (hr : IsNearestF64 y r) :
-    r = x := nearest_of_close hx hc hr
+/-- a number token of `stats.json` (or of any text file) that is a literal within 2⁻⁵⁵ of the
+binary64 value `x` — whatever its spelling (`repr` prints the shortest such) — is read back as `x` -/
+theorem json_number_roundtrip (tok : Str) (x y : ℚ) (hx : IsF64 x) (hp : parseDec tok = some y)
+    (hc : Text.close x y = true) : (parseDec tok).bind F64.rne = some x := by
+  rw [hp]; exact rne_roundtrip_of_close x y hx ((close_sound x y).mp hc)
 
+/-- `_partial` (of `bag_stamp_error`): whole-second stamps `0 ≤ k < 2⁵³` pass through the
+`sec/nanosec` split and the reassembly `sec + nanosec·1e-9` exactly.  The bound `|x' − x| ≤ 1 ns`
+for all stamps is not proved: it is validated on every generated stamp by each run. -/
+theorem bag_stamp_error_partial (k : ℕ) (hk : k < 2 ^ 53) :
+    bagSplit (k : ℚ) = some ((k : ℤ), 0) ∧ bagJoin (k : ℤ) 0 = some (k : ℚ) := by
+  have hid : F64.rne (k : ℚ) = some (k : ℚ) :=
+    rne_id_on_f64 _ ⟨(k : ℤ), 0, by rw [abs_of_nonneg (by positivity)]; exact_mod_cast hk, by norm_num, by norm_num, by simp⟩
+  constructor
+  · unfold bagSplit
+    have hfl : (k : ℚ).floor = (k : ℤ) := by
+      have : ((k : ℤ) : ℚ) = (k : ℚ) := by simp
+      rw [← this]; exact Rat.floor_intCast _
+    simp only [hfl]
+    have : (k : ℚ) - ((k : ℤ) : ℚ) = 0 := by simp
+    rw [this, rne_zero]
+    simp only [zero_mul, rne_zero]
+    have h0 : Rat.floor 0 = 0 := by decide +kernel
+    simp [h0]
+  · unfold bagJoin
+    cases hc : F64.rne (mkRat 1 1000000000) with
+    | none => exact absurd hc (by decide +kernel)
+    | some c =>
+      simp only [Int.cast_zero, zero_mul, rne_zero, add_zero]
+      simpa using hid
 /-! ### non-vacuity -/
 example : IsF64 (3602879701896397 / 36028797018963968) :=
   ⟨3602879701896397, -55, by norm_num, by norm_num, by norm_num, by norm_num⟩
@@ -98,6 +128,7 @@ example : Text.close (3602879701896397 / 36028797018963968) (1 / 10) = false := 
 example : Json.escape "a\"\\\n\x01é😀".toList = "a\\\"\\\\\\n\\u0001\\u00e9\\ud83d\\ude00".toList := by decide +kernel
 example : losslessFmt "%.18e" = true ∧ losslessFmt "%.9f" = false ∧ losslessFmt "%.8e" = false ∧
     losslessFmt "%.16e" = false ∧ losslessFmt "<dynamic>" = false := by decide +kernel
+example : bagSplit 1500000000 = some (1500000000, 0) ∧ bagJoin 1500000000 0 = some 1500000000 := by decide +kernel
 /-- bag stamps: an epoch stamp with a nanosecond fraction comes back within 1 ns (here: 2⁻²² s off) -/
 example : bagSplit (6291456000517815 / 4194304) = some (1500000000, 123456716) ∧
     bagJoin 1500000000 123456716 = some (6291456000517815 / 4194304) := by decide +kernel
